@@ -184,8 +184,7 @@ USE_STRING = ["string(@x)", "concat(@x,'-',@y)", "name()", "substring(.,1,1)", "
               "local-name(..)", "substring-before(concat(@x,' '),' ')"]
 USE_OTHER = ["count(*)", "string-length(@x)", "count(@*)", "boolean(@x)", "@x='1'", "number(@x)", "count(ancestor::*)"]
 # use expressions that read the context position/size: (expression, the same with position() = last() = 1 as XSLT 12.2
-# defines it, for the brute force).  Generated only when the source evaluates use with a one-node context list
-# (translator fact use_context_singleton; otherwise finding K-C15-2).
+# defines it, for the brute force).  Former finding K-C15-2 (empty context node list) is repaired.
 USE_POSLAST = [("position()", "1"), ("last()", "1"), ("concat(@x,position(),last())", "concat(@x,1,1)"),
                ("substring('vw',position(),last())", "substring('vw',1,1)"), ("count(*) + last()", "count(*) + 1"),
                ("concat(position(),' ',last() + 1)", "concat(1,' ',1 + 1)"), ("string(position() = last())", "string(1 = 1)")]
@@ -813,7 +812,7 @@ def run(ctx):
         "pattern matching (match=) and expression evaluation (use=) are abstract in the Coq model: per node they are taken from the library itself in pass 1 (template modes / xsl:value-of, no xsl:key in that stylesheet); properties C09/C10/C02 are about them",
         "XalanMap is a finite map (operator[] = find-or-create), property C04; MutableNodeRefList::addNodeInDocOrder on an index-sorted list of one indexed document inserts at the index position and drops an equal index (binary search: property C12, theorems bsearch_correct / add_in_doc_order_refines_partial)",
         "getIndex() of the source tree increases in document order (element, its attributes, its children): C12 struct_order_eq_index_order; here idx = position in the pre-order node list",
-        "use expressions call position()/last() only when the translator finds the one-node context list in KeyTable::processKeyDeclaration (finding K-C15-2 otherwise) and key() is not applied to result tree fragments converted by a node-set extension (StylesheetRoot::getKeyNode's fragment case is not modelled)",
+        "key() is not applied to result tree fragments converted by a node-set extension (StylesheetRoot::getKeyNode's fragment case is not modelled)",
         "generated patterns come from a fixed grammar whose brute-force select equivalent is known (//P for a relative pattern P)",
     ]
     ctx.notes["rule"] = ("distinct_nontrivial = distinct (key name, argument values, non-empty result node list, (match, use) of the declarations of that name) tuples "
@@ -832,11 +831,7 @@ def run(ctx):
         ctx.broken.append("xslt driver does not compile against the working tree: " + hlog[-500:])
         return ctx.finish(LEVEL)
     known = {k["key"]: k for k in ctx.known.for_property("C15")}
-    try:
-        import gen_key
-        POSLAST[0] = bool(gen_key.gen_key()[1].get("use_context_singleton"))
-    except Exception:
-        POSLAST[0] = False      # the broken anchor is already reported by ctx.prove
+    POSLAST[0] = True       # former finding K-C15-2 is repaired: position()/last() in use expressions are generated and must pass
     ctx.notes["use_position_last_generated"] = POSLAST[0]
     run_corpus(ctx, exe, known)
 
